@@ -236,6 +236,12 @@ func ChangedWhere() string { return "" }
 
 // WatchGlobals starts logging writes to package-level variables of the module; GlobalWrites counts them.
 func WatchGlobals()     {}
+
+// Touch tells the executor that a model method writes the object ptr points
+// to (a stateful writer, hasher, compressor): sharing such an object between
+// two packagings is then seen as a write to shared memory. No-op natively,
+// where the real object is really written (and the race detector sees it).
+func Touch(ptr any) {}
 func GlobalWrites() int { return 0 }
 
 var (
